@@ -13,10 +13,16 @@ completion, as coded:
   }()
   fn()
 
-What `fn` and every cleanup do (return, or panic with a value) is an input.  A cleanup
-that panics ends the loop: the inner deferred function reports it, the REMAINING
-cleanups do not run, and `Recover` returns normally.  `Limiter.Go` is the instance
-`cleanups = [l.done]`.  A panicking `panicFn` is outside the model (DESIGN §5).
+What `fn` and every cleanup do is an input: one of the four ways a Go function can end
+(`Outcome`: return, panic with a value `recover()` reports, `panic(nil)` under
+`GODEBUG=panicnil=1`, `runtime.Goexit()`).  A cleanup that panics ends the loop: the inner
+deferred function reports it, the REMAINING cleanups do not run, and `Recover` returns
+normally.  A cleanup that ends with `panic(nil)` under `panicnil=1` ends the loop the same
+way but the inner `recover()` returns nil: NOTHING is reported (recorded observation: the
+remaining cleanups are lost silently).  `runtime.Goexit()` — in `fn` or in a cleanup — runs
+the pending deferred functions (both `recover()` calls return nil) and then ends the
+goroutine: `Recover` does not return to its caller (`returns = false`).  `Limiter.Go` is the
+instance `cleanups = [l.done]`.  A panicking `panicFn` is outside the model (DESIGN §5).
 Core-only.
 -/
 import Golib.Model.C19Lim
@@ -30,30 +36,47 @@ inductive RVal where
 deriving DecidableEq, Repr
 
 /-- The cleanup loop from index `i`: the indices of the cleanups that were called, and
-the panic that ended the loop (value, index), if any. -/
+the panic that ended the loop AND is visible to the inner `recover()` (value, index), if
+any.  A cleanup ending with `panic(nil)` under `panicnil=1` or with `Goexit` ends the loop
+too, with nothing for the inner deferred function to report. -/
 def runCleanups : Nat → List Outcome → List Nat × Option (Int × Nat)
   | _, [] => ([], none)
   | i, .ok :: rest => (i :: (runCleanups (i + 1) rest).1, (runCleanups (i + 1) rest).2)
   | i, .panic v :: _ => ([i], some (v, i))
+  | i, .panicNil :: _ => ([i], none)
+  | i, .goexit :: _ => ([i], none)
+
+/-- Did one of the cleanups that were called end the goroutine (`Goexit`)?  (Only the
+cleanups up to the first one that does not return are called.) -/
+def cleanupsGoexit : List Outcome → Bool
+  | [] => false
+  | .ok :: rest => cleanupsGoexit rest
+  | .goexit :: _ => true
+  | .panic _ :: _ => false
+  | .panicNil :: _ => false
 
 structure RecResult where
   handled : List RVal     -- calls of `panicFn`, in order
   ran : List Nat          -- indices of the cleanups that were called, in order
+  returns : Bool := true  -- `Recover` returns to its caller (false: the goroutine ended by `Goexit`)
 deriving DecidableEq, Repr
 
-/-- `Recover(fn, panicFn, cleanups...)`; it always returns (no panic escapes). -/
+/-- `Recover(fn, panicFn, cleanups...)`; no panic escapes from it for any way `fn` and the
+cleanups end.  The first handler call is decided by `recover()` alone (`Outcome.recovered`). -/
 def recoverRun (fn : Outcome) (cleanups : List Outcome) : RecResult :=
-  let h₁ : List RVal := match fn with
-    | .ok => []
-    | .panic v => [.val v]
+  let h₁ : List RVal := match fn.recovered with
+    | none => []
+    | some v => [.val v]
   let r := runCleanups 0 cleanups
   let h₂ : List RVal := match r.2 with
     | some (v, i) => [.cleanupPanic v i]
     | none => []
-  { handled := h₁ ++ h₂, ran := r.1 }
+  { handled := h₁ ++ h₂, ran := r.1, returns := !(fn == .goexit) && !cleanupsGoexit cleanups }
 
 def Outcome.isPanic : Outcome → Bool
   | .ok => false
   | .panic _ => true
+  | .panicNil => true
+  | .goexit => false
 
 end Golib.C19
